@@ -68,6 +68,13 @@ CLAIMED["C09"] = dict(
     note="Trusted: TLC, BigNat overrides, Bn.tla, replayer plumbing. GT element values are relational + one standard constant (no F_p^12 tower in TLA+); G2 compressed decoding and subgroup checks are not modelled.",
     technique="TLA+ executable specification (dlog algebra + exact G1/G2 arithmetic) + TLC exploration + spec-to-code trace replay")
 
+CLAIMED["C12"] = dict(
+    category="model_checking",
+    text="obj/RandSource.tla states the drawing rule (optional one discarded byte, then 32-byte big-endian blocks until one lies in the operation's range, key generators XOR byte 1 with 0x42; no masking, reduction or reuse). TLC runs SM2 sign/encrypt/keygen/key-exchange, ecdh keygen, SM9 master keygen (sign/encrypt), wrap, key-exchange and sign against scripted streams whose leading blocks are 0, 1, top, top+1, n, n+1, 2^256-1 in several orders at both alignments, computes for each admissible alignment the scalar, the bytes consumed and the exact output that follows from that scalar by the algorithm's definition (SM2.tla, Bn.tla), checks ScalarIsBlock as an invariant, and adds a fault (error/EOF) at every byte position. Each trace is replayed 8 times against the real API with a scripted reader; every reply must be in the allowed set and a failing source must give an error and no output.",
+    design_ref="DESIGN.md section 4, C12",
+    note="Trusted: TLC, BigNat overrides, SM2/EC/Bn/SM3 TLA+ definitions (KAT-pinned), replayer plumbing incl. the scripted reader. SM9 Sign output is pinned only through the draw (exact S is C10). Uniformity follows from equality with the sampled block; it is not tested statistically.",
+    technique="TLA+ executable specification + TLC exploration of stream classes and fault positions + spec-to-code trace replay with scripted random sources")
+
 NOT_BUILT = "not built yet (in progress; see DESIGN.md section 9 build order)"
 NA = {}
 
